@@ -26,7 +26,7 @@ STD_VARIANTS = {
 
 
 class Event:
-    __slots__ = ("kind", "site", "bb", "idx", "args", "result", "target", "value", "line", "ck")
+    __slots__ = ("kind", "site", "bb", "idx", "args", "result", "target", "value", "line", "ck", "body", "depth", "inlined", "chain")
 
     def __init__(self, kind, bb, idx, line):
         self.kind = kind  # 'call' | 'store' | 'drop'
@@ -39,6 +39,10 @@ class Event:
         self.target = None
         self.value = None
         self.ck = None
+        self.body = None
+        self.depth = 0
+        self.inlined = False
+        self.chain = ()
 
     def __repr__(self):
         if self.kind == "call":
@@ -67,10 +71,13 @@ class Path:
 
 
 class PathEnum:
-    def __init__(self, prog, body, max_visits=2, max_paths=20000, stop_blocks=(), start_bb=0, init_env=None):
+    def __init__(self, prog, body, max_visits=2, max_paths=20000, stop_blocks=(), start_bb=0, init_env=None, inline=None, max_depth=4):
         self.prog = prog
+        self.root = body
         self.body = body
         self.cfg = prog.cfg(body)
+        self.inline = inline
+        self.max_depth = max_depth
         self.max_visits = max_visits
         self.max_paths = max_paths
         self.stop_blocks = set(stop_blocks)
@@ -131,7 +138,7 @@ class PathEnum:
         if base is None:
             if 1 <= l <= self.body.arg_count:
                 base = ("param", l)
-            elif self.start_bb != 0:
+            elif self.start_bb != 0 and self.body is self.root:
                 # enumeration started in the middle of the body: values defined before the start
                 # block get their flow-insensitive provenance
                 base = self.prog.bp(self.body).local_term(l, self.start_bb, 0)
@@ -227,30 +234,36 @@ class PathEnum:
 
     # ---- enumeration --------------------------------------------------------------------------
     def _run(self):
-        body = self.body
-        cfg = self.cfg
-        # stack entries: (bb, env, consts, decisions(list), visits(dict), path)
+        # stack entries: (bb, env, consts, decisions(list), visits(dict), path, discr_src, frames)
+        # frames: tuple of suspended callers (body, env, consts, discr_src, dest place, target bb)
         init_env = dict(self.init_env or {})
-        stack = [(self.start_bb, init_env, {}, [], {}, Path(), {})]
+        stack = [(self.start_bb, init_env, {}, [], {}, Path(), {}, ())]
         while stack:
-            bb, env, consts, decisions, visits, path, discr_src = stack.pop()
+            bb, env, consts, decisions, visits, path, discr_src, frames = stack.pop()
             if len(self.paths) >= self.max_paths:
                 self.truncated = True
                 break
-            v = visits.get(bb, 0) + 1
-            if v > self.max_visits:
+            body = frames[-1][6] if frames else self.root
+            self.body = body
+            self.cfg = cfg = self.prog.cfg(body)
+            depth = len(frames)
+            vk = (depth, body.path, bb)
+            v = visits.get(vk, 0) + 1
+            if depth == 0 and bb in self.stop_blocks and path.blocks:
+                pass  # reaching a stop block ends the path (handled below), even on a revisit
+            elif v > self.max_visits:
                 continue  # loop bound: path discarded
             visits = dict(visits)
-            visits[bb] = v
+            visits[vk] = v
             env = dict(env)
             consts = dict(consts)
             decisions = list(decisions)
             discr_src = dict(discr_src)
             np = Path()
-            np.blocks = path.blocks + [bb]
+            np.blocks = path.blocks + [bb] if depth == 0 else list(path.blocks)
             np.events = list(path.events)
             path = np
-            if bb in self.stop_blocks and len(path.blocks) > 1:
+            if depth == 0 and bb in self.stop_blocks and len(path.blocks) > 1:
                 path.decisions = decisions
                 path.end = "stop:%d" % bb
                 path.env = env
@@ -280,6 +293,8 @@ class PathEnum:
                         ev = Event("store", bb, i, s["loc"]["line"])
                         ev.target = self.place(env, p)
                         ev.value = val
+                        ev.body = body
+                        ev.depth = depth
                         path.events.append(ev)
                     else:
                         # partial assignment to a local: record override
@@ -295,10 +310,34 @@ class PathEnum:
                         ev = Event("store", bb, i, s["loc"]["line"])
                         ev.target = self._apply(("local", p["l"]) if not (1 <= p["l"] <= body.arg_count) else ("param", p["l"]), list(names))
                         ev.value = val
+                        ev.body = body
+                        ev.depth = depth
                         path.events.append(ev)
             t = blk["term"]
             k = t["k"]
             if k == "return":
+                if frames:
+                    # return into the suspended caller
+                    cbody, cenv, cconsts, cdsrc, dest, tgt, _callee, _cbb = frames[-1]
+                    ret = env.get(0, ("undef", 0))
+                    cenv = dict(cenv)
+                    cconsts = dict(cconsts)
+                    cdsrc = dict(cdsrc)
+                    if "__taken__" in discr_src:
+                        cdsrc["__taken__"] = discr_src["__taken__"]
+                    if not dest["p"]:
+                        cenv[dest["l"]] = ret
+                        cconsts.pop(dest["l"], None)
+                        cdsrc.pop(dest["l"], None)
+                        if ret[0] == "const" and ret[2] == "bool":
+                            cconsts[dest["l"]] = ret[1] == "true"
+                    # the event recording the call gets its result
+                    for e_ in reversed(path.events):
+                        if e_.kind == "call" and e_.inlined and e_.result is None:
+                            e_.result = ret
+                            break
+                    stack.append((tgt, cenv, cconsts, decisions, visits, path, cdsrc, frames[:-1]))
+                    continue
                 path.decisions = decisions
                 path.ret = env.get(0, ("undef", 0))
                 path.end = "return"
@@ -313,6 +352,23 @@ class PathEnum:
                 ev.site = site
                 ev.ck = site.ck
                 ev.args = args
+                ev.body = body
+                ev.depth = depth
+                ev.chain = tuple((f[0], f[7]) for f in frames)
+                callee = self.prog.callee_body(site) if self.inline is not None else None
+                if callee is not None and t.get("target") is not None and depth < self.max_depth and not callee.is_closure() and callee.path != body.path and not any(f[6].path == callee.path for f in frames) and self.inline(site, callee):
+                    ev.inlined = True
+                    ev.result = None
+                    path.events.append(ev)
+                    cenv = {}
+                    for ai, a in enumerate(args):
+                        cenv[ai + 1] = a
+                    fr = frames + ((body, env, consts, discr_src, t["dest"], t["target"], callee, bb),)
+                    ndsrc = {}
+                    if "__taken__" in discr_src:
+                        ndsrc["__taken__"] = discr_src["__taken__"]
+                    stack.append((0, cenv, {}, decisions, visits, path, ndsrc, fr))
+                    continue
                 res = self.call_result(site, args, v)
                 if site.ck == "std::boxed::box_assume_init_into_vec_unsafe" and args:
                     # vec![a, b]: Box::new_uninit -> array written through the box -> into_vec
@@ -342,20 +398,22 @@ class PathEnum:
                     path.env = env
                     self.paths.append(path)
                     continue
-                stack.append((t["target"], env, consts, decisions, visits, path, discr_src))
+                stack.append((t["target"], env, consts, decisions, visits, path, discr_src, frames))
                 continue
             if k == "drop":
                 ev = Event("drop", bb, "term", t["loc"]["line"])
                 ev.target = self.place(env, t["place"])
+                ev.body = body
+                ev.depth = depth
                 path.events.append(ev)
                 for s in succs:
-                    stack.append((s, env, consts, decisions, visits, path, discr_src))
+                    stack.append((s, env, consts, decisions, visits, path, discr_src, frames))
                 continue
             if k == "switch":
                 d = t["discr"]
                 if d["k"] == "const":
                     for s in succs:
-                        stack.append((s, env, consts, decisions, visits, path, discr_src))
+                        stack.append((s, env, consts, decisions, visits, path, discr_src, frames))
                     continue
                 l = d["place"]["l"] if not d["place"]["p"] else None
                 if l is not None and l in consts:
@@ -367,7 +425,7 @@ class PathEnum:
                     if tgt is None:
                         tgt = t["otherwise"]
                     if tgt in succs:
-                        stack.append((tgt, env, consts, decisions, visits, path, discr_src))
+                        stack.append((tgt, env, consts, decisions, visits, path, discr_src, frames))
                     continue
                 key = norm_key(self.operand(env, d))
                 taken = discr_src.get("__taken__", frozenset())
@@ -397,7 +455,7 @@ class PathEnum:
                     lab = prev[-1]
                     hit = [tb for (l2, tb) in outcomes if l2 == lab]
                     if hit:
-                        stack.append((hit[0], env, consts, decisions, visits, path, discr_src))
+                        stack.append((hit[0], env, consts, decisions, visits, path, discr_src, frames))
                     elif ow_live and (lab.startswith("*") or lab not in explicit):
                         # a single remaining variant decided earlier as '*X' or as 'X'
                         if lab.startswith("*"):
@@ -406,22 +464,22 @@ class PathEnum:
                                 # earlier 'rest' decision overlaps explicit arms here: fork over them
                                 for l2, tb in outcomes:
                                     if l2 in labs and tb in succs:
-                                        stack.append((tb, env, consts, decisions + [(key, l2)], visits, path, discr_src))
+                                        stack.append((tb, env, consts, decisions + [(key, l2)], visits, path, discr_src, frames))
                                 if labs - explicit:
-                                    stack.append((ow, env, consts, decisions, visits, path, discr_src))
+                                    stack.append((ow, env, consts, decisions, visits, path, discr_src, frames))
                                 continue
-                        stack.append((ow, env, consts, decisions, visits, path, discr_src))
+                        stack.append((ow, env, consts, decisions, visits, path, discr_src, frames))
                     continue
                 for lab, tb in outcomes:
                     if tb in succs:
-                        stack.append((tb, env, consts, decisions + [(key, lab)], visits, path, discr_src))
+                        stack.append((tb, env, consts, decisions + [(key, lab)], visits, path, discr_src, frames))
                 if ow_live:
-                    stack.append((ow, env, consts, decisions + [(key, rest)], visits, path, discr_src))
+                    stack.append((ow, env, consts, decisions + [(key, rest)], visits, path, discr_src, frames))
                 continue
             if k == "assert":
-                stack.append((t["target"], env, consts, decisions, visits, path, discr_src))
+                stack.append((t["target"], env, consts, decisions, visits, path, discr_src, frames))
                 continue
             if k == "unreachable":
                 continue
             for s in succs:
-                stack.append((s, env, consts, decisions, visits, path, discr_src))
+                stack.append((s, env, consts, decisions, visits, path, discr_src, frames))
